@@ -443,3 +443,132 @@ func Reopen(dir, how string) (ReadStore, func(), error) {
 		return st, func() { os.Remove(tp) }, nil
 	}
 }
+
+// ---- garbage-collection model (written from the property text; least fixed points, no order dependence)
+
+// Tagged reports whether node id carries a tag in the model.
+func (m *Model) Tagged(id int) bool {
+	for _, v := range m.Tags {
+		if v.Node == id {
+			return true
+		}
+	}
+	return false
+}
+
+// DeleteAutoGC applies Delete(target) with automatic garbage collection and
+// returns the removed set. ambiguous is true when the statement's clauses
+// conflict for this state (a referrer that must go is still linked from a
+// surviving node); such states are not judged.
+func (m *Model) DeleteAutoGC(target int) (removed map[int]bool, ambiguous bool, class string) {
+	if !m.Present[target] {
+		return nil, false, "notfound"
+	}
+	d := m.D
+	S := map[int]bool{target: true}
+	// tags naming the target go with it
+	tagged := func(id int) bool {
+		for _, v := range m.Tags {
+			if v.Node == id && id != target {
+				return true
+			}
+		}
+		return false
+	}
+	for changed := true; changed; {
+		changed = false
+		for _, n := range d.Nodes {
+			if S[n.ID] || !m.Present[n.ID] || tagged(n.ID) {
+				continue
+			}
+			// untagged manifest whose subject was removed
+			if n.Kind.IsManifest() && n.Subject >= 0 && S[n.Subject] {
+				S[n.ID], changed = true, true
+				continue
+			}
+			// untagged node that thereby lost its last predecessor
+			preds := d.Preds(n.ID, m.Present)
+			if len(preds) == 0 {
+				continue
+			}
+			all := true
+			for _, p := range preds {
+				if !S[p] {
+					all = false
+				}
+			}
+			if all {
+				S[n.ID], changed = true, true
+			}
+		}
+	}
+	for id := range S {
+		if id == target {
+			continue
+		}
+		for _, p := range d.Preds(id, m.Present) {
+			if !S[p] {
+				ambiguous = true
+			}
+		}
+	}
+	for id := range S {
+		delete(m.Present, id)
+	}
+	for r, v := range m.Tags {
+		if v.Node == target {
+			delete(m.Tags, r)
+		}
+	}
+	return S, ambiguous, "ok"
+}
+
+// GC applies the garbage collector: keep the closure of tagged nodes plus every
+// stored manifest whose subject chain reaches a kept manifest (with its closure).
+func (m *Model) GC() {
+	d := m.D
+	K := map[int]bool{}
+	var addClosure func(id int)
+	addClosure = func(id int) {
+		if K[id] || !m.Present[id] {
+			return // traversal stops at absent content
+		}
+		K[id] = true
+		for _, x := range d.Nodes[id].Succ {
+			addClosure(x)
+		}
+	}
+	for _, v := range m.Tags {
+		addClosure(v.Node)
+	}
+	for changed := true; changed; {
+		changed = false
+		for _, n := range d.Nodes {
+			if K[n.ID] || !m.Present[n.ID] || !n.Kind.IsManifest() || n.Subject < 0 {
+				continue
+			}
+			// walk the subject chain through stored manifests
+			cur := n
+			for cur.Subject >= 0 {
+				s := cur.Subject
+				if K[s] {
+					addClosure(n.ID)
+					changed = true
+					break
+				}
+				if s == n.ID {
+					break
+				}
+				if !m.Present[s] {
+					break
+				}
+				cur = d.Nodes[s]
+			}
+		}
+	}
+	for id := range m.Present {
+		if !K[id] {
+			delete(m.Present, id)
+		}
+	}
+}
